@@ -103,16 +103,10 @@ func makeParams(c *core.Ctx) map[string]any {
 	nq := func(q, t int) int { return c.Pick(q, t) }
 	chunks := utf8Chunks
 	units := utf16Chunks
-	maxChunks, maxUnits := 2, 2
-	if !c.Thorough() {
-		// quick: every chunk still appears alone and in every ordered pair with a
-		// seeded half of the alphabet; thorough: all concatenations of <= 3
-		chunks = append([][]byte{}, utf8Chunks...)
-	} else {
-		maxChunks, maxUnits = 3, 3
-	}
+	// quick: all concatenations of at most 2 chunks; thorough: of at most 3
+	maxChunks, maxUnits := c.Pick(2, 3), c.Pick(2, 3)
 	var randStrs [][]int
-	for i := 0; i < nq(40, 600); i++ {
+	for i := 0; i < nq(40, 1500); i++ {
 		n := 1 + rng.Intn(6)
 		var s []byte
 		for k := 0; k < n; k++ {
@@ -134,7 +128,7 @@ func makeParams(c *core.Ctx) map[string]any {
 		randStrs = append(randStrs, is)
 	}
 	var ri, ru [][]any
-	for i := 0; i < nq(12, 200); i++ {
+	for i := 0; i < nq(12, 400); i++ {
 		x := rng.Uint64()
 		if i%3 == 0 {
 			x >>= uint(rng.Intn(40)) // around 2^53 and below
@@ -152,7 +146,7 @@ func makeParams(c *core.Ctx) map[string]any {
 		ru = append(ru, []any{0, limbsOf(y)})
 	}
 	var rf [][]any
-	for i := 0; i < nq(12, 200); i++ {
+	for i := 0; i < nq(12, 400); i++ {
 		f := math.Float64frombits(rng.Uint64())
 		if f != f || math.IsInf(f, 0) {
 			f = rng.NormFloat64()
@@ -341,7 +335,11 @@ func loadCases(c *core.Ctx, dir string) (evs []*ev, hdr *specHeader, err error) 
 					} else if !rt.hasUnspec() {
 						vv, tt := v, t
 						want := gdesc(rt, t)
-						for _, rr := range hdr.routes["R"][:2] {
+						rroutes := hdr.routes["R"]
+						if !c.Thorough() {
+							rroutes = rroutes[:2]
+						}
+						for _, rr := range rroutes {
 							rr := rr
 							add(&ev{fam: "R", route: rr[0], tIdx: tidx[t.canon()], want: want, raw: raw, typ: tt, val: vv,
 								describe: fmt.Sprintf("round trip of %s value %s", t.canon(), v.canon()),
@@ -361,7 +359,8 @@ func loadCases(c *core.Ctx, dir string) (evs []*ev, hdr *specHeader, err error) 
 				}
 				want := jdesc(pred)
 				routes := hdr.routes["E"]
-				if fam == "ES" {
+				if fam == "ES" && !c.Thorough() {
+					// the bulk strings go through two boxed and two static routes in the quick tier
 					routes = bulkRoutes(routes, []string{"call", "setkey", "field", "ret"})
 				}
 				for _, rr := range routes {
@@ -406,7 +405,11 @@ func loadCases(c *core.Ctx, dir string) (evs []*ev, hdr *specHeader, err error) 
 						discards++
 					} else {
 						wantX := jdesc(predX)
-						for _, rr := range hdr.routes["X"][:1] {
+						xroutes := hdr.routes["X"]
+						if !c.Thorough() {
+							xroutes = xroutes[:1]
+						}
+						for _, rr := range xroutes {
 							rr := rr
 							add(&ev{fam: "X", route: rr[0], tIdx: tidx[t.canon()], want: wantX, raw: raw,
 								describe: fmt.Sprintf("JavaScript value %s through an exposed Go function of type %s and back", j.canon(), t.canon()),
@@ -438,7 +441,7 @@ func loadCases(c *core.Ctx, dir string) (evs []*ev, hdr *specHeader, err error) 
 					continue
 				}
 				routes := hdr.routes["I"]
-				if fam == "IS" {
+				if fam == "IS" && !c.Thorough() {
 					routes = bulkRoutes(routes, []string{"param", "field"})
 				}
 				for _, rr := range routes {
